@@ -90,6 +90,14 @@ def gen_catch(n):
     n = None
     yield 1.5
 
+async def agen(n):
+    n = str(n)
+    yield n
+    r = await Susp()
+    n = [n]
+    yield n
+    n = None
+
 async def coro(a):
     r = await Susp()
     a = [a]
@@ -109,6 +117,8 @@ PROGRAMS: List[Tuple[str, str, bool]] = [
     ("mixed", "(M.top(1), list(M.gen_rebind(2)), M.rec(1))", False),
     ("two-generators-interleaved", "INTERLEAVE(M.gen_rebind(1), M.gen_inner(2))", False),
     ("generators-and-calls", "([list(M.gen_rebind(i)) for i in (1, 2)], list(M.gen_outer(7)), M.f(0))", False),
+    ("async-generator", "ADRIVE(M.agen(5))", False),
+    ("async-generator-and-calls", "(M.f(0), ADRIVE(M.agen(1)), M.f('a'))", False),
     ("generator-thrown-into", "THROW(M.gen_catch(5))", False),
     ("generator-closed-early", "(CLOSE(M.gen_finally_(3)), M.f(1))", False),
     ("coroutine-and-generator", "(DRIVE(M.coro(1)), list(M.gen_rebind('x')), DRIVE(M.coro([2])))", False),
@@ -188,6 +198,21 @@ def interleave(a: Any, b: Any) -> int:
     return n
 
 
+def drive_async_gen(ag: Any) -> Any:
+    """`async for` by hand: every __anext__ awaitable is driven with send() until it delivers a value or the end"""
+    out = []
+    it = ag.__aiter__()
+    while True:
+        step = it.__anext__()
+        try:
+            while True:
+                step.send(None if not out or True else None)
+        except StopIteration as e:
+            out.append(e.value)
+        except StopAsyncIteration:
+            return out
+
+
 def throw_into(g: Any) -> Any:
     """next, then an exception thrown in (the generator catches it and goes on), then run to exhaustion"""
     out = [next(g)]
@@ -231,7 +256,7 @@ def run_once(M, files, expr: str, rate: Optional[int], fake: FakeRandom, prefix:
             with tracing.trace_calls(col, k, lambda code: code.co_filename in files, rate):
                 tracer = sys.getprofile()
                 try:
-                    eval(expr, {"M": M, "DRIVE": drive_all, "INTERLEAVE": interleave, "THROW": throw_into, "CLOSE": close_early})
+                    eval(expr, {"M": M, "DRIVE": drive_all, "INTERLEAVE": interleave, "THROW": throw_into, "CLOSE": close_early, "ADRIVE": drive_async_gen})
                 except Exception:  # noqa: BLE001
                     pass
                 residue = len(tracer.traces)
@@ -445,6 +470,31 @@ def sessions_and_cli(ctx: Ctx) -> Result:
             want2 = 4 if r2 in (None, 1) else 0   # all draws answer skip (for rate 1 the only answer, 0, samples)
             if counts[1] != want2:
                 res.violate(Violation(ID, "frequency", "rate-of-earlier-session-sticks", {"program": "sessions", "pi": -1, "rate": [r1, r2], "answers": "skip-all"}, f"block 1 with rate {r1}, block 2 with rate {r2} on the same logger, every draw answering 'skip': block 2 logged {counts[1]} of 4 calls, expected {want2}"))
+    # a generator started in one tracing session and finished in the next one, every ordered pair of rates, every draw
+    # answering 'sample': the second session logs nothing for it (its call did not start there)
+    for r1 in RATES:
+        for r2 in RATES:
+            g = M.gen_rebind(5)
+            c1, c2 = c02.Collector(), c02.Collector()
+            old = tracing.random
+            tracing.random = fake  # type: ignore[assignment]
+            try:
+                fake.begin([], False)
+                with tracing.trace_calls(c1, 0, flt, r1):
+                    next(g)
+                fake.begin([], False)
+                with tracing.trace_calls(c2, 0, flt, r2):
+                    rest = list(g)
+                    M.f(1)
+            finally:
+                tracing.random = old  # type: ignore[assignment]
+            res.states += 1
+            res.transitions += 2
+            res.evaluations += 1
+            res.validated += 1
+            bad = [t for t in c2.traces if t.func.__qualname__ == "gen_rebind"]
+            if bad or not any(t.func.__qualname__ == "f" for t in c2.traces):
+                res.violate(Violation(ID, "arg-types", "generator-across-two-sessions", {"program": "sessions", "pi": -1, "rate": [r1, r2], "answers": "sample-all"}, f"gen_rebind(5) started in a session with rate {r1} and finished in a session with rate {r2} (every draw sampling): the second session logged {[(t.func.__qualname__, {n: O.show(x) for n, x in t.arg_types.items()}) for t in bad]} for it; all: {[t.func.__qualname__ for t in c2.traces]}"))
     res.oblige("sessions-sharing-a-logger", True)
     # CLI: monkeytype run with Config.sample_rate
     import mcfg
